@@ -22,7 +22,17 @@ def spectral_divergence(u, L=1.0):
 
 
 def nyquist_free(rng, D, N):
+    """a smooth random vector field with every Nyquist wavenumber removed (even N: any component equal to ±N/2) — the
+    property's hypothesis for the physical-space routines; on small even grids a 'smooth' state still reaches N/2"""
     u = S.random_state(rng, D, D, N, "smooth")
+    if N % 2 == 0:
+        k = np.fft.fftfreq(N, 1 / N)
+        keep = np.ones((N,) * D, dtype=bool)
+        for d in range(D):
+            sh = [1] * D
+            sh[d] = N
+            keep &= (np.abs(k).reshape(sh) != N // 2)
+        u = np.stack([np.real(np.fft.ifftn(np.fft.fftn(u[c]) * keep)) for c in range(D)])
     return u
 
 
